@@ -23,7 +23,7 @@ namespace smt
                     res.vars.erase(trm_it);
             }
         }
-        res.known_term += known_term;
+        res.known_term += right.known_term;
         return res;
     }
 
